@@ -168,34 +168,30 @@ namespace bloch::runtime {
         }
         if (q >= 0 && q < static_cast<int>(m_measured.size()))
             m_measured[q] = false;
-        // Put qubit q into |0>.
-        // If the state already has amplitude in the |...0> subspace, zero the |...1> subspace
-        // and renormalize. If all amplitude is in |...1>, deterministically move it into
-        // the |...0> subspace (equivalent to an X on a measured |1>), avoiding NaNs.
+        // Put qubit q into |0> without disturbing the other qubits: reset is the channel
+        // "measure q, discard the outcome, flip q if it was 1". Projecting onto the |...0>
+        // subspace alone would post-select and change the statistics of entangled partners.
         size_t bit = size_t{1} << q;
-        double norm0 = 0.0;
+        double p1 = 0;
+        for (size_t i = 0; i < m_state.size(); ++i)
+            if (i & bit)
+                p1 += std::norm(m_state[i]);
+        std::uniform_real_distribution<double> dist(0.0, 1.0);
+        double r = dist(rng);
+        int res = r < p1 ? 1 : 0;
+        double norm = std::sqrt(res ? p1 : 1 - p1);
         for (size_t i = 0; i < m_state.size(); ++i) {
-            if (!(i & bit))
-                norm0 += std::norm(m_state[i]);
+            if (((i & bit) ? 1 : 0) != res)
+                m_state[i] = 0;
+            else
+                m_state[i] /= norm;
         }
-
-        if (norm0 == 0.0) {
-            // All amplitude is in the |...1> subspace: swap it into |...0>.
+        if (res) {
+            // The sampled branch has q = 1: move it into the |...0> subspace.
             for (size_t i = 0; i < m_state.size(); ++i) {
                 if (i & bit) {
-                    size_t j = i ^ bit;  // flip target bit to 0
-                    m_state[j] = m_state[i];
+                    m_state[i ^ bit] = m_state[i];
                     m_state[i] = 0.0;
-                }
-            }
-        } else {
-            // Zero |...1> and renormalize |...0>
-            double inv = 1.0 / std::sqrt(norm0);
-            for (size_t i = 0; i < m_state.size(); ++i) {
-                if (i & bit) {
-                    m_state[i] = 0.0;
-                } else {
-                    m_state[i] *= inv;
                 }
             }
         }
